@@ -339,8 +339,26 @@ class _StructCodecs(ast.NodeTransformer):
         return node
 
 
+class _AttrGetters(ast.NodeTransformer):
+    """operator.attrgetter('name') / attrgetter('name') with one plain field name is `lambda _o: _o.name`"""
+    def visit_Call(self, node):
+        self.generic_visit(node)
+        f = node.func
+        fn = f.attr if isinstance(f, ast.Attribute) and isinstance(f.value, ast.Name) and f.value.id == 'operator' else (f.id if isinstance(f, ast.Name) else None)
+        if fn == 'attrgetter' and len(node.args) == 1 and not node.keywords and isinstance(node.args[0], ast.Constant) \
+                and isinstance(node.args[0].value, str) and node.args[0].value.isidentifier():
+            lam = ast.Lambda(args=ast.arguments(posonlyargs=[], args=[ast.arg(arg='_o')], kwonlyargs=[], kw_defaults=[], defaults=[]),
+                             body=ast.Attribute(value=ast.Name(id='_o', ctx=ast.Load()), attr=node.args[0].value, ctx=ast.Load()))
+            for x in ast.walk(lam):
+                ast.copy_location(x, node)
+            return lam
+        return node
+
+
 class Expander:
     def __init__(self, tree):
+        if any(isinstance(n, ast.Name) and n.id == 'attrgetter' or isinstance(n, ast.Attribute) and n.attr == 'attrgetter' for n in ast.walk(tree)):
+            _AttrGetters().visit(tree)
         sc = _StructCodecs(tree)
         if sc.mod or sc.cls:
             sc.visit(tree)
@@ -349,7 +367,74 @@ class Expander:
         self.tree = tree
         self.n = 0
 
+    def inline_class_constants(self):
+        """`NAME = enums.State.COMPROMISED` / `NAME = 10` in a class body, read as self.NAME / cls.NAME / Class.NAME, never stored through an
+        attribute anywhere and defined by no other class of the module: the read is the constant (a named default next to a table)"""
+        def const_value(v):
+            if isinstance(v, ast.Constant) and type(v.value) in (int, str, bytes, float, bool, type(None)):
+                return True
+            if isinstance(v, ast.Attribute) and v.attr.isupper():
+                r = v
+                n = 0
+                while isinstance(r, ast.Attribute):
+                    r = r.value
+                    n += 1
+                return isinstance(r, ast.Name) and r.id not in ('self', 'cls') and n >= 2
+            return False
+        cands = {}
+        for c in self.tree.body:
+            if not isinstance(c, ast.ClassDef):
+                continue
+            # members of an Enum class are not constants of that kind (Tags.NAME is the member, not its value)
+            if any('Enum' in (ast.unparse(b)) for b in c.bases) or not any(isinstance(x, ast.FunctionDef) for x in c.body):
+                continue
+            for st_ in c.body:
+                if isinstance(st_, ast.Assign) and len(st_.targets) == 1 and isinstance(st_.targets[0], ast.Name) and const_value(st_.value) \
+                        and not st_.targets[0].id.startswith('__'):
+                    cands.setdefault(st_.targets[0].id, []).append((c.name, st_.value))
+        cands = {k: v[0] for k, v in cands.items() if len(v) == 1}
+        if not cands:
+            return
+        for n in ast.walk(self.tree):
+            if isinstance(n, ast.Attribute) and isinstance(n.ctx, (ast.Store, ast.Del)) and n.attr in cands:
+                cands.pop(n.attr)
+            if isinstance(n, ast.Call) and isinstance(n.func, ast.Name) and n.func.id in ('setattr', 'delattr') and n.args:
+                a0 = n.args[0]
+                owners = {v[0] for v in cands.values()}
+                if not isinstance(a0, ast.Name) or a0.id in ('self', 'cls') or a0.id in owners:
+                    # a computed attribute store on the class or its instances: any constant may be rebound
+                    if not (len(n.args) >= 2 and isinstance(n.args[1], ast.Constant) and n.args[1].value not in cands):
+                        cands.clear()
+        if not cands:
+            return
+        # names also bound as instance fields elsewhere (self.X read where X is an __init__ field of another class) are left alone:
+        # only reads inside the defining class, or through the class name, are replaced
+        tree = self.tree
+
+        class Inl(ast.NodeTransformer):
+            def __init__(self_):
+                self_.cls = [None]
+
+            def visit_ClassDef(self_, node):
+                self_.cls.append(node.name)
+                self_.generic_visit(node)
+                self_.cls.pop()
+                return node
+
+            def visit_Attribute(self_, node):
+                self_.generic_visit(node)
+                if isinstance(node.ctx, ast.Load) and node.attr in cands and isinstance(node.value, ast.Name):
+                    owner, val = cands[node.attr]
+                    if (node.value.id in ('self', 'cls') and self_.cls[-1] == owner) or node.value.id == owner:
+                        new = copy.deepcopy(val)
+                        for x in ast.walk(new):
+                            ast.copy_location(x, node)
+                        return new
+                return node
+        Inl().visit(tree)
+
     def run(self):
+        self.inline_class_constants()
         _Getattr().visit(self.tree)
         if self.t.mod or self.t.cls or self.t.exprs:
             self.scope(self.tree.body, None)
@@ -433,7 +518,9 @@ class Expander:
         fnames = {n.name for n in self.tree.body if isinstance(n, ast.FunctionDef)}
         if all(isinstance(v, ast.Constant) and isinstance(v.value, str) and v.value.isidentifier() for v in lit.values):
             found = found + ('names',)        # a table of attribute / method names: sunk when the result only names an attribute (see sink)
-        elif not all(isinstance(v, ast.Lambda) or (isinstance(v, ast.Name) and v.id in fnames) for v in lit.values):
+        elif not all(isinstance(v, ast.Lambda) or (isinstance(v, ast.Name) and v.id in fnames)
+                     or (isinstance(v, ast.Tuple) and v.elts and all(isinstance(y, ast.Lambda) or (isinstance(y, ast.Name) and y.id in fnames) for y in v.elts))
+                     for v in lit.values):
             return None
         if default is not None and not (isinstance(default, ast.Constant) and default.value is None):
             return None
@@ -478,10 +565,24 @@ class Expander:
 
         fnames = {n.name for n in self.tree.body if isinstance(n, ast.FunctionDef)}
 
+        stored = {}
+        for t in rest:
+            for n in ast.walk(t):
+                if isinstance(n, ast.Name) and isinstance(n.ctx, (ast.Store, ast.Del)):
+                    stored[n.id] = stored.get(n.id, 0) + 1
+
         def arm(val):
             body = []
+            m_ = {x: val}
             for t in rest:
-                nt = _Simplify(fnames).visit(_Sub({x: val}).visit(copy.deepcopy(t)))
+                # a, b = x   with x := (v1, v2): the names stand for the elements from here on (each bound exactly once in the rest)
+                if isinstance(val, ast.Tuple) and isinstance(t, ast.Assign) and len(t.targets) == 1 and isinstance(t.targets[0], ast.Tuple) \
+                        and isinstance(t.value, ast.Name) and t.value.id == x and len(t.targets[0].elts) == len(val.elts) \
+                        and all(isinstance(e_, ast.Name) and stored.get(e_.id) == 1 for e_ in t.targets[0].elts):
+                    for e_, v_ in zip(t.targets[0].elts, val.elts):
+                        m_[e_.id] = v_
+                    continue
+                nt = _Simplify(fnames).visit(_Sub(m_).visit(copy.deepcopy(t)))
                 if nt is None:
                     continue
                 if len(found) > 5:
@@ -791,7 +892,7 @@ class _Simplify(ast.NodeTransformer):
         self.generic_visit(node)
         if len(node.ops) == 1 and isinstance(node.ops[0], (ast.Is, ast.IsNot)) and isinstance(node.comparators[0], ast.Constant) and node.comparators[0].value is None:
             l = node.left
-            if isinstance(l, ast.Lambda) or (isinstance(l, ast.Name) and l.id in self.fnames):
+            if isinstance(l, ast.Lambda) or (isinstance(l, ast.Name) and l.id in self.fnames) or (isinstance(l, ast.Tuple) and l.elts):
                 return ast.copy_location(ast.Constant(value=isinstance(node.ops[0], ast.IsNot)), node)
             if isinstance(l, ast.Constant) and l.value is None:
                 return ast.copy_location(ast.Constant(value=isinstance(node.ops[0], ast.Is)), node)
